@@ -18,6 +18,7 @@ import (
 	"fmt"
 	"net/url"
 	"reflect"
+	"sort"
 	"sync"
 	"testing"
 
@@ -46,6 +47,10 @@ type c13Case struct {
 	Override  bool       `json:"override"`
 	Workers   [][]c13Op  `json:"workers"`
 	Repeat    int        `json:"repeat"`
+	// PartialOrder: every object schema of the documents gets a PropertyOrder naming only its first
+	// property, in a slice with spare capacity (what a caller's append leaves behind); the rest is
+	// documented to follow in alphabetical order.
+	PartialOrder bool `json:"partial_order,omitempty"`
 }
 
 type c13World struct {
@@ -63,6 +68,19 @@ func buildC13World(c *c13Case) (*c13World, *failure) {
 		var s jsonschema.Schema
 		if err := json.Unmarshal([]byte(d.JSON()), &s); err != nil {
 			return nil, failf("Unmarshal rejects a well-formed document: %v", err)
+		}
+		if c.PartialOrder {
+			for _, x := range schemaList(&s) {
+				if len(x.Properties) >= 2 {
+					ks := make([]string, 0, len(x.Properties))
+					for k := range x.Properties {
+						ks = append(ks, k)
+					}
+					sort.Strings(ks)
+					po := make([]string, 0, 8)
+					x.PropertyOrder = append(po, ks[len(ks)-1])
+				}
+			}
 		}
 		w.schemas = append(w.schemas, &s)
 		w.opts = append(w.opts, nil)
@@ -255,6 +273,7 @@ func TestC13(t *testing.T) {
 			c.Types = append(c.Types, tgen.GenTD(t, tgen.Opts{MaxDepth: 2, Std: true}))
 		}
 		c.Override = n(2, "override") == 0
+		c.PartialOrder = n(2, "partialorder") == 0
 		nschemas := len(c.Docs)
 		if c.Dynamic != nil {
 			nschemas++
@@ -292,6 +311,7 @@ func TestC13(t *testing.T) {
 		}
 		rec.Class(fmt.Sprintf("goroutines:%d", len(c.Workers)))
 		rec.ClassIf(c.Dynamic != nil, "shared:dynamicRef-topology+caching-loader")
+		rec.ClassIf(c.PartialOrder, "shared:schemas-with-partial-PropertyOrder")
 		rec.Eval(nt, ev.JSON(c), func() any {
 			return map[string]any{"docs": c.Docs, "workers": c.Workers, "types": len(c.Types), "dynamic": c.Dynamic != nil}
 		})
